@@ -782,3 +782,4 @@ v("c12-sqlnode-not-in-eval-env", "C12", "expr_parse_fn.py", "    TableDescriptio
 v("c18-count-numbered-in-row-order", "C18", PB,
   "                    if (zero_op == \"row_number\") or (\n                        (zero_op == \"count\") and (len(op.order_by) > 0)\n                    ):",
   "                    if zero_op in {\"row_number\", \"count\"}:")
+v("c03-order-rows-nulls-first", "C03", PM, "            by=op.order_columns, descending=reversed_cols, nulls_last=True\n", "            by=op.order_columns, descending=reversed_cols\n")
